@@ -243,6 +243,10 @@ func (its *jsonPrimitive) getTargetFromPatch(path string) (jsonType, string, err
 	if len(paths) < 1 {
 		return nil, "", errors.DatatypeInvalidPatch.New(its.common.L(), "incorrect path: %v", path)
 	}
+	// the path is a JSON pointer (RFC 6901): "~1" stands for "/" and "~0" for "~" inside a key
+	for i, p := range paths {
+		paths[i] = strings.ReplaceAll(strings.ReplaceAll(p, "~1", "/"), "~0", "~")
+	}
 	key := paths[len(paths)-1]
 	paths = paths[1 : len(paths)-1]
 
